@@ -30,7 +30,11 @@ MANIFEST = dict(
           "exactly, do not depend on the order of the points; the general fit on the columns (x^2, x, 1) equals the "
           "quadratic fit and on (x, 1) the linear fit (under the stated guard conditions); over the reals the "
           "correlation coefficient lies in [-1, 1], is +-1 on collinear data, is invariant under positive affine "
-          "rescaling, changes sign under negation, and constant x or y gives ZeroDivisionError. The model is tied to "
+          "rescaling, changes sign under negation, and constant x or y gives ZeroDivisionError. Also: the returned "
+          "coefficients are the UNIQUE solution of the normal equations; the determinant guards raise exactly when "
+          "|det| < TOL (not only when it is zero); abscissae with at most two distinct values (quadratic) and linearly "
+          "dependent basis functions (general) raise ZeroDivisionError; the one-list form and lists of unequal length "
+          "reduce to the two-list form. The model is tied to "
           "/repo by running its binary64 instantiation against the real code bit for bit, and every clause is "
           "evaluated on the implementation against an exact rational solution of the normal equations. Not carried by "
           "a theorem: the relative 1e-6 of the binary64 results (checked on data whose equilibrated Gram matrix has "
